@@ -169,9 +169,10 @@ IDPMD(wrap, nidp, sso, kds) == [wrap |-> wrap, nidp |-> nidp, sso |-> sso, kds |
 
 \* how the SP is configured to trust the IdP (validateSignature :1292-1311; the signer is the trusted key)
 \*   md1 / md2   certificates of IDPMetadata: one signing descriptor / several (the signer's is among them)
+\*   md0 / mdbad the metadata has no signing certificate / one whose text is not a certificate next to the signer's
 \*   pin         IDPCertificate (the metadata carries another certificate)
 \*   fp256 / fp512  IDPCertificateFingerprint + IDPCertificateFingerprintAlgorithm (likewise)
-TrustCls == {"md1", "md2", "pin", "fp256", "fp512"}
+TrustCls == {"md1", "md2", "md0", "mdbad", "pin", "fp256", "fp512"}
 FpTrust  == {"fp256", "fp512"}
 NRoots(t) == IF t = "md2" THEN 2 ELSE 1
 \* what ds:Signature/ds:KeyInfo holds (it is outside the digest: the signature value stays valid)
@@ -598,9 +599,10 @@ VSFind == /\ pc = "VSFind" /\ Keep
 \* :1292 / :1298 / :1304 exactly one of the three ways of finding the trusted certificates applies
 VSTrust == /\ pc = "VSTrust" /\ Keep
            /\ Goto(CASE TC \in FpTrust -> "FpFind" [] TC = "pin" -> "PinCert" [] OTHER -> "MdCerts")
-\* getIDPSigningCerts ranges over the descriptors and their certificates (nothing is indexed) and parses
-\* every one; the metadata of these configurations is good (the idpmd family has the others)
-MdCerts == /\ pc = "MdCerts" /\ Keep /\ Goto("VSStrip")
+\* getIDPSigningCerts ranges over the descriptors and their certificates (nothing is indexed): :403 none
+\* found, :414 / :419 every one must decode and parse (the idpmd family has the descriptor shapes)
+MdCerts == /\ pc = "MdCerts" /\ Keep
+           /\ IF TC \in {"md0", "mdbad"} THEN ReturnVS("bad") ELSE Goto("VSStrip")
 \* :1305 parseCert(*sp.IDPCertificate), a good certificate
 PinCert == /\ pc = "PinCert" /\ Keep /\ Goto("VSStrip")
 \* :429 el.FindElement("./Signature/KeyInfo/X509Data/X509Certificate") - nil without such an element
